@@ -112,11 +112,17 @@ def h_merge(n0: int, n1: int, n2: int, n3: int, k0: int, k1: int, k2: int, k3: i
          sel=["n0, n3: raw names of a dict entry and a keyword", "k0, k3: value kinds"],
          targets=["htmltools._core.consolidate_attrs"])
 def h_consolidate(n0: int, n3: int, k0: int, k3: int) -> bool:
+    import collections
+    from htmltools._core import TagAttrDict as _TAD
     """consolidate_attrs returns exactly the merged attributes plus the non-dict arguments unchanged, so
     rebuilding a tag from its result equals building it directly."""
     s = "&v\""
     d1 = {pick(n0, _NAMES): _val(k0, s, 0), "id": "i"}
     d2 = {"id": None, "x": 3}
+    if k3 % 3 == 1:
+        d2 = collections.OrderedDict(d2)        # any dict subclass is an attribute dict
+    elif k3 % 3 == 2:
+        d2 = _TAD(d2)
     kw = {pick(n3, _NAMES): _val(k3, s, 3)}
     want = ref_merge([list(d1.items()), list(d2.items()), list(kw.items())])
     child = Tag("b")
